@@ -29,7 +29,7 @@ ALPH = {
     "low": alphabet(prices=(0.4, 1, 2), vols=(1, 2), ttls=(None,), mttls=(None,), dead=(), cancels=2),
 }
 SEEDS_Q = ["two_sided_no_trade", "quoted_while_off", "deep", "ladder_buy", "ladder_sell", "partial", "crossed_off", "crossed_tie", "crossed_flip", "crossed_flip_mirror", "mo_one", "mo_both",
-           "mo_both_eq", "mo_both_ttl_behind", "expiring", "same_expiry", "mixed_ttl", "multi_fill", "chunk4", "halftick", "step99"]
+           "mo_both_eq", "mo_both_ttl_behind", "expiring", "same_expiry", "mixed_ttl", "multi_fill", "chunk4", "halftick", "step99", "shares1"]
 
 
 KEY_SEEDS = ["two_sided_no_trade", "quoted_while_off", "ladder_buy", "ladder_sell", "multi_fill", "mo_both", "expiring", "same_expiry", "mixed_ttl", "crossed_tie"]
